@@ -73,8 +73,10 @@ def run(chk):
         a = oans.get(k, "-")
         mcases.append(("debsig", [c[0], c[1], b"0" if a == "-" else b"1", b"" if a == "-" else bytes.fromhex(a[1:])] + t))
     impl = chk.run_impl(icases); model = chk.run_model(mcases)
-    chk.compare("debsig", mcases, impl, model, nontrivial=lambda c, r: r.startswith("ok"), kernel=False,
-                project=lambda r: r if r.startswith("ok") else "fail")   # loading or verification failed: one observable
+    chk.compare("debsig", mcases, impl, model, nontrivial=lambda c, r: r.startswith("ok"),
+                project=lambda r: r if r.startswith("ok") else "fail",   # loading or verification failed: one observable
+                classify=lambda c, i, m: None if (not i.startswith("ok") and m.startswith("ok")) else {})
+    # (a verification that fails where the model's succeeds is not a violation of "succeeds only if": it is noted)
     counts = {}
     for k, (c, i, tag) in enumerate(zip(cases, impl, tags)):
         counts[tag] = counts.get(tag, 0) + 1
@@ -83,8 +85,10 @@ def run(chk):
             a = oans.get(k, "-")
             if a == "-":
                 why = "verification succeeded although _gpg%s is not a valid signature by a key of the keyring over debian-binary, control and data" % c[1].decode()
-            elif i != "ok " + a:
+            elif not i.startswith("ok " + a + " "):
                 why = "the reported signer is not the verifying entity"
+            elif i.endswith("payload-broken"):
+                why = "after a successful verification the payload stream exposed by the loader is no longer readable"
             if tag in ("byte-corruption", "decoy-members", "no-signature-member"):
                 why = why or "verification succeeded on a package with %s" % tag
         if why:
